@@ -78,7 +78,8 @@ def run(ctx):
         'HSpace projection (assemble with mass_vf / L2functional_vf) is exercised by the oracle only (reproduce + orthogonality), not by the Lean model',
         'rounding: implementation doubles vs exact rationals within c*N*eps*cond(collocation or mass Kronecker factors)*max|coeff|',
     ]
-    ctx.rule = ('spaces: dims 1-3, degrees 0-6, 1-4 spans per axis, dyadic breakpoints, interior multiplicities 1..p; data = functions of the space '
+    ctx.rule = ('spaces: dims 1-3, degrees 0-6, 1-4 spans per axis, dyadic breakpoints, interior multiplicities 1..p, built from independent knot vectors, '
+                'from the same KnotVector object in every direction and from equal copies; node grids perturbed independently per direction; data = functions of the space '
                 '(random dyadic coefficients) with scalar, (2,) and (2,2) values, given as BSplineFunc, as callable, as value array; default Greville '
                 'nodes, shifted (still unisolvent, decided exactly by the model) and repeated nodes (singular: expected error kind); affine and quarter-annulus '
                 'geometries with physical data; polynomial data outside/inside the space for orthogonality; HB/THB spaces with 1-2 refinements. '
@@ -152,11 +153,19 @@ def run(ctx):
     for it in range(ni):
         dim = int(rng.choice([1, 1, 2, 2, 3]))
         pmax = 6 if dim == 1 else 4 if dim == 2 else 2
-        kvs = tuple(rand_kv(rng, bspline, pmax=pmax, maxspans=4 if dim < 3 else 2) for _ in range(dim))
+        # how the tuple of knot vectors is built: independent objects, the SAME object in every direction (the `d*(kv,)`
+        # idiom), or equal copies (distinct objects with equal knots)
+        space = str(rng.choice(['distinct', 'distinct', 'same', 'same', 'copy'])) if dim >= 2 else 'distinct'
+        if space == 'distinct':
+            kvs = tuple(rand_kv(rng, bspline, pmax=pmax, maxspans=4 if dim < 3 else 2) for _ in range(dim))
+        else:
+            kv0 = rand_kv(rng, bspline, pmax=pmax, maxspans=4 if dim < 3 else 2)
+            kvs = dim * (kv0,) if space == 'same' else (kv0,) + tuple(bspline.KnotVector(kv0.kv.copy(), kv0.p) for _ in range(dim - 1))
+        ctx.count('interp space=' + space)
         nd = tuple(kv.numdofs for kv in kvs)
         trail = [(), (), (2,), (2, 2)][int(rng.integers(0, 4))]
         coef = rng.integers(-8, 9, size=nd + trail) / 8.0
-        mode = str(rng.choice(['func', 'array', 'callable', 'shifted', 'repeated', 'physical', 'bsp1d']))
+        mode = str(rng.choice(['func', 'array', 'callable', 'shifted', 'repeated', 'physical', 'bsp1d', 'pernodes', 'pernodes', 'pernodes']))
         if mode == 'bsp1d' and (dim != 1 or trail):
             mode = 'func'
         if mode == 'physical' and (dim != 2 or trail):
@@ -176,14 +185,26 @@ def run(ctx):
             else:
                 mode = 'array'
             nodes[k] = g
+        sub = 'array'
+        if mode == 'pernodes':
+            # custom node grid, perturbed independently in every direction (so the node sets differ between directions even
+            # when the knot vectors are the same object); ordering is kept, unisolvence is decided below / by the model
+            for k in range(dim):
+                g = np.array(nodes[k], dtype=float)
+                for j in range(len(g) - 1):
+                    if rng.integers(0, 2):
+                        g[j] = g[j] + (nodes[k][j + 1] - nodes[k][j]) * float(rng.integers(1, 4)) / 4.0
+                nodes[k] = g
+            sub = str(rng.choice(['array', 'func', 'callable'])) if not trail else str(rng.choice(['array', 'func']))
+            ctx.count('interp pernodes data=' + sub)
         f = bspline.BSplineFunc(kvs, coef)
-        key = (mode, tuple((kv.p, kv.kv.tobytes()) for kv in kvs), tuple(np.asarray(n).tobytes() for n in nodes), coef.tobytes())
+        key = (mode, space, tuple((kv.p, kv.kv.tobytes()) for kv in kvs), tuple(np.asarray(n).tobytes() for n in nodes), coef.tobytes())
         ctx.case(key, nontrivial=dim >= 2 or max(kv.p for kv in kvs) >= 2)
         ctx.count('stream=interp'); ctx.count('interp mode=' + mode); ctx.count('dim=%d' % dim); ctx.count('data shape=%s' % (trail,))
         Cs = [bspline.collocation(kv, n).toarray() for kv, n in zip(kvs, nodes)]
         kappa = float(np.prod([cond_inf(C) for C in Cs]))
         N = int(np.prod(nd))
-        replay = {'mode': mode, 'kvs': [(kv.p, kv.kv.tolist()) for kv in kvs], 'nodes': [np.asarray(n).tolist() for n in nodes], 'coeffs': coef.tolist()}
+        replay = {'mode': mode + ('/' + sub if mode == 'pernodes' else ''), 'space': space, 'kvs': [(kv.p, kv.kv.tolist()) for kv in kvs], 'nodes': [np.asarray(n).tolist() for n in nodes], 'coeffs': coef.tolist()}
         try:
             if mode == 'func':
                 x = approx.interpolate(kvs, f)
@@ -211,6 +232,16 @@ def run(ctx):
                         out[idx] = f.grid_eval((np.array([ys[idx]]), np.array([xs[idx]])))[0, 0]
                     return out
                 x = approx.interpolate(kvs, fphys, geo=geo)
+            elif mode == 'pernodes' and sub == 'func':
+                x = approx.interpolate(kvs, f, nodes=nodes)
+            elif mode == 'pernodes' and sub == 'callable':
+                if dim == 1:
+                    fun = lambda X: f.grid_eval((np.ravel(X),))
+                elif dim == 2:
+                    fun = lambda X, Y: f.grid_eval((np.ravel(Y), np.ravel(X)))
+                else:
+                    fun = lambda X, Y, Z: f.grid_eval((np.ravel(Z), np.ravel(Y), np.ravel(X)))
+                x = approx.interpolate(kvs, fun, nodes=nodes)
             else:
                 vals = f.grid_eval(nodes)
                 x = approx.interpolate(kvs, vals, nodes=nodes)
@@ -226,7 +257,7 @@ def run(ctx):
         add('evalg %s %s' % (plist(zip(kvs, nodes), lambda t: fmt_axis(*t)), fmt_tensor(coef)), close(vals, tolv, 'values on the node grid'),
             {'op': 'evalgrid', **replay})
         rline = 'interp %s %s' % (plist(zip(kvs, nodes), lambda t: fmt_axis(*t)), fmt_tensor(vals))
-        if mode in ('repeated', 'shifted') and any(np.linalg.matrix_rank(C) < C.shape[0] for C in Cs):
+        if mode in ('repeated', 'shifted', 'pernodes') and any(np.linalg.matrix_rank(C) < C.shape[0] for C in Cs):
             ctx.count('interp non-unisolvent grids')
             def c(ans, tok=tok, x=x):
                 if ans != 'singular':
